@@ -281,3 +281,6 @@ desc file('02906.orc')
 SELECT toTime64('-99:59:59.123', 3)
 SELECT '99' == dictGetString({CLICKHOUSE_DATABASE:String} || '.dict_ip_trie', 'val', tuple(IPv6StringToNum('ffff:ffff:ffff:ffff:ffff:ffff:ffff:8000')))
 SHOW INDEX FROM database_123456789abcde.tbl
+SELECT CAST(x AS Tuple(`a b` UInt8, c Array(Tuple(`d-e` String, f UInt8)))), x::Tuple(`a b` UInt8, `c.d` Map(String, Nullable(UInt8)))
+SELECT CAST(1 AS Enum8('it\'s' = 1, 'b\\c' = -2)), CAST(d AS DateTime64(3, 'Europe/Moscow')), y::Decimal(10, 2), z::FixedString(16)
+CREATE TABLE t2 (`a b` Tuple(`x y` UInt8, z String), e Enum16('a' = 1, 'b' = 2), n Nested(k UInt8, `v w` String)) ENGINE = Memory
